@@ -28,7 +28,7 @@ fixtab = "\n".join(f"| `{l.split(' ',1)[0]}` | {l.split(' ',1)[1]} |" for l in f
 tpl = re.sub(r"\| commit \| what \|\n\|---\|---\|\n(?:\|.*\|\n)+", "| commit | what |\n|---|---|\n" + fixtab + "\n", tpl)
 
 rows = []
-missed1 = []; nfi1 = []
+missed1 = []; nfi1 = []; missed3 = []; nfi3 = []
 for f in sorted(glob.glob(V + '/seeded/*/meta.json')):
     m = json.load(open(f))
     ch = re.sub(r'^(Change|C\d\d change|#+)\s*\d*\s*[-:–—.]?\s*', '', m['change']).strip()
@@ -42,8 +42,12 @@ for f in sorted(glob.glob(V + '/seeded/*/meta.json')):
         first = 'caught'
     else:
         first = 'caught' if fr['concrete_failing_input_found'] else ('caught, no input' if fr['detected'] else 'missed')
-    if first == 'missed': missed1.append(m['id'])
-    if first == 'caught, no input': nfi1.append(m['id'])
+    if m.get('round') == 3:
+        if first == 'missed': missed3.append(m['id'])
+        if first == 'caught, no input': nfi3.append(m['id'])
+    else:
+        if first == 'missed': missed1.append(m['id'])
+        if first == 'caught, no input': nfi1.append(m['id'])
     rows.append(f"| {m['id']} | {', '.join(m['files_touched'])} | {ch} | {first} | {now} |")
 seedtab = "\n".join(rows)
 stren = []
@@ -54,11 +58,11 @@ for f in sorted(glob.glob(V + '/seeded/*/meta.json')):
         stren.append(f"* **{m['id']}** – {sw}")
 seeded = f'''### 13.7 Seeded breaking changes and which checks catch them
 
-Eighty changes, four per property, in two rounds.  Each was written by a fresh sub-agent that saw
+One hundred and twenty changes, six per property, in three rounds.  Each was written by a fresh sub-agent that saw
 only the text of one property and a scratch worktree (nothing from /verif), was asked for a
 plausible maintainer edit that needs something specific to manifest, and was confirmed by hand in
 a scratch worktree: applies to HEAD, builds, the whole existing suite passes, the demonstration
-fails with the change and passes without it (C15-4's demonstration needs `-race`).  They are kept
+fails with the change and passes without it (the demonstrations of C15-4 and C15-6 need `-race`).  They are kept
 under `/verif/seeded/<id>/` (`patch.diff`, `demo_test.go`, `notes.md`, `meta.json`).  Each was
 applied to /repo (`git -C /repo apply`), the quick check of its property run, and the tree
 restored (`git -C /repo checkout -- .`).
@@ -68,8 +72,24 @@ written after the checks had been tuned on round 1: 27 of 40 caught at once with
 input, 4 caught only because a regenerated fact no longer matched ({', '.join(nfi1)}: reported with
 `no-failing-input-found`), and 9 missed ({', '.join(m for m in missed1 if m != 'C19-2')}).  Every miss was a hole in a
 generator or an oracle, none in a theorem; each was closed by adding the family named below, and
-the clean tree still passes.  Now all eighty are reported by the quick check of their own property
-with a concrete failing input as replay.
+the clean tree still passes.
+
+Round 3 (ids `-5`, `-6`) asked the sub-agents for changes that need a *specific* history, schedule,
+size or spelling to show (caches, pools, single-flight, packed positions, natural sort orders,
+"harmless generalisations" of a literal syntax).  {40 - len(missed3) - len(nfi3)} of 40 were caught at once with a concrete failing
+input, {len(nfi3)} only as a broken obligation or correspondence without an exhibiting input ({', '.join(nfi3)}) and {len(missed3)}
+were missed ({', '.join(missed3)}).  Again every miss was a hole in what the
+generators produce or what the oracles look at.  The general lessons, beyond the individual
+families listed below: (1) the worker now runs a fixed set of "poisoning" renders before every
+request (a loop that fails after producing output, a refused data map, assignments without data, a
+source that fails to parse) and evaluates every request twice, so state carried from one call to
+the next shows as a wrong or unstable answer; (2) concurrent workloads run on a Template that has
+rendered nothing yet, their baseline comes from a second Template loaded from the same tree, and the
+calls are repeated after the concurrent phase; (3) history families come in two shapes, with and
+without the operation issued first; (4) histories can change the file tree between loads; (5) the
+cover table of C19 comes from the real `Position.Contains`, also on lines longer than 65535 bytes.
+Now all one hundred and twenty are reported by the quick check of their own property with a
+concrete failing input as replay.
 
 What was added for the ones not caught (or caught without an input) at first:
 
